@@ -61,6 +61,7 @@ def classify(res, linemap, fname):
     """-> dict(failed: {oid: [msgs]}, infra: [msgs], rlimit: [oids], fn_times: {...})"""
     lines = linemap["lines"]
     failed, infra, rl, artifact = {}, [], {}, {}
+    infra_injected = set()      # (unit, fn): a rustc / Verus infrastructure error located in INJECTED text of that function
     base = os.path.basename(fname)
     for d in res["diags"]:
         lvl = d.get("level")
@@ -113,6 +114,8 @@ def classify(res, linemap, fname):
             failed.setdefault(oid, []).append(rendered)
         else:
             infra.append(f"{msg} @ line {ln} ({oid})")
+            if ent["kind"] == "unit" and (ent.get("injected") or ent.get("contract")) and ent.get("fn"):
+                infra_injected.add((ent["name"], ent["fn"]))
     if res["rc"] == -9:
         infra.append("verus timed out")
     if "panicked at" in res["raw_err"] or "internal compiler error" in res["raw_err"]:
@@ -125,7 +128,7 @@ def classify(res, linemap, fname):
         infra.append("verus verified 0 functions")
     if res["json"] is None and not failed and not infra:
         infra.append("verus produced no JSON result: " + res["raw_err"][-400:])
-    return {"failed": failed, "infra": infra, "rlimit": rl, "artifact": artifact}
+    return {"failed": failed, "infra": infra, "rlimit": rl, "artifact": artifact, "infra_injected": infra_injected}
 
 
 def fn_times(res):
